@@ -597,7 +597,7 @@ def est_program(draw, tier):
     for _ in range(n):
         which = draw(st.sampled_from(["base", "base", "other"]))
         src = base if which == "base" else other
-        ns, no = c10._nsched_nout(src["tomo"], d, src["true"].get("m"))
+        ns, no = c10._nsched_nout(src["tomo"], d, src["true"].get("m"), src)
         steps.append({
             "tomo": which,
             "datadesc": draw(tomo.data_for(ns, no, kinds=("fewshot", "far"))),
